@@ -81,6 +81,7 @@ func main() {
 	ex := NewExec(ld.Prog, lib, *prop)
 	ex.callSites = map[string][]string{}
 	ex.findSentinels()
+	ex.findConstGlobals()
 	ex.errs = append(ex.errs, lib.LintGhostFrames()...)
 	if axFailed > 0 {
 		ex.errs = append(ex.errs, fmt.Sprintf("%d assumed axiom(s) are false for the real library (see AXCHECK-FAILED lines): every proof that uses them is void", axFailed))
